@@ -12,7 +12,11 @@ UFmtDemands(e) ==
       fitsU == uMax = 0 \/ 45 <= uMax
       fitsP == uMax = 0 \/ 36 <= uMax
       good == <<1>> \o id
+      id2 == [id EXCEPT ![32] = IF id[32] % 2 = 0 THEN id[32] + 1 ELSE id[32] - 1]
   IN <<
+    <<"H.sib",       e.sibtext = FmtID(id2)>>,
+    \* one read buffer: this record, then refilled with an id that differs in its last bit
+    <<"C05.reuse",   fitsP => e.reuse = <<good, <<1>> \o id2>> >>,
     <<"H.id",        IsID(id)>>,
     <<"C05.fmt",     e.f0 = txt>>,
     <<"C05.fmturn",  e.fu = urn>>,
